@@ -4,7 +4,8 @@ patch=$(readlink -f "$1"); shift
 tag=$(echo "$patch" | tr '/.' '__')
 wt=/var/tmp/wtc$tag; ev=/var/tmp/evc$tag
 git -C /repo worktree remove --force $wt >/dev/null 2>&1
-git -C /repo worktree add --detach $wt HEAD >/dev/null 2>&1 || { echo "WORKTREE FAILED"; exit 2; }
+ok=0; for try in 1 2 3 4 5 6 7 8; do git -C /repo worktree add --detach $wt HEAD >/dev/null 2>&1 && { ok=1; break; }; sleep 1; git -C /repo worktree prune >/dev/null 2>&1; done
+[ $ok = 1 ] || { echo "WORKTREE FAILED"; exit 2; }
 git -C $wt apply "$patch" || { echo "PATCH DOES NOT APPLY"; git -C /repo worktree remove --force $wt; exit 2; }
 mkdir -p $ev
 for p in "$@"; do
